@@ -197,6 +197,13 @@ def call(ex, p, f, args, kwargs, node=None):
             return
         if k == 'method':
             selfref, (module, qual) = f.data
+            fdef = front.load(module).func(qual)
+            decos = [d.id for d in fdef.decorator_list if isinstance(d, ast.Name)]
+            if 'staticmethod' in decos:
+                yield from call_repo(ex, p, f'{module}.{qual}', list(args), kwargs, node)
+                return
+            if decos and any(d not in ('staticmethod',) for d in decos) or len(decos) != len(fdef.decorator_list):
+                raise EngineError(f'decorated method {qual} ({ast.unparse(fdef.decorator_list[0])}) is not modelled')
             yield from call_repo(ex, p, f'{module}.{qual}', [selfref] + args, kwargs, node)
             return
         if k == 'valmethod':
